@@ -549,6 +549,40 @@ def run(ctx, idx):
         ctx.hold("C10.f", con, rel, sl[0].lineno, "delimiters removed positionally (v[1:-1])")
     else:
         raise AnalysisError("C10.f: quote removal in t_STRING is outside the recognised forms")
+    # a rewrite of the string body by a regular expression BEFORE it is decoded must read escapes the way the decoder does: in
+    # pairs.  A pattern that consumes one backslash and only LOOKS at what follows judges every backslash on its own - the second
+    # backslash of `\\\\` (an escaped backslash) is then taken for the start of an escape of the next character
+    con = "%s::t_STRING::body-reaches-decoder" % rel
+    pre = [n for n in ast.walk(rs.node) if isinstance(n, ast.Call) and isinstance(n.func, ast.Attribute) and n.func.attr in ("sub", "subn") and n.args and any("1:-1" in K.src(a_) or ("%s.value" % t) in K.src(a_) for a_ in n.args)]
+    for n in pre:
+        pat_src = None
+        recv = n.func.value
+        cands = []
+        if isinstance(recv, ast.Attribute):
+            # self.<name> / Lexer.<name>: a class attribute holding re.compile(<literal>)
+            for st_ in ast.walk(L.lexer_cls.node):
+                if isinstance(st_, ast.Assign) and any(isinstance(t_, ast.Name) and t_.id == recv.attr for t_ in st_.targets) and isinstance(st_.value, ast.Call) and st_.value.args and isinstance(st_.value.args[0], ast.Constant):
+                    cands.append(st_.value.args[0].value)
+        elif isinstance(recv, ast.Name) and recv.id == "re" and isinstance(n.args[0], ast.Constant):
+            cands.append(n.args[0].value)
+        if len(cands) == 1 and isinstance(cands[0], str):
+            pat_src = cands[0]
+        if pat_src is None:
+            raise AnalysisError("C10.f: the string body is rewritten by `%s` before it is decoded and the pattern is not a literal" % K.src(n)[:50])
+        import re as _re
+
+        try:
+            tree = _re._parser.parse(pat_src)
+        except Exception:
+            raise AnalysisError("C10.f: cannot read the pattern %r" % pat_src)
+        items = list(tree)
+        single_backslash_lookahead = len(items) == 2 and str(items[0][0]) == "LITERAL" and items[0][1] == 92 and str(items[1][0]) in ("ASSERT_NOT", "ASSERT")
+        if single_backslash_lookahead:
+            ctx.violate("C10.f", con, rel, n.lineno, "`%s` rewrites the string body with %r, which consumes ONE backslash and only looks at the next character: escapes are not read in pairs, so in `\\\\d` (an escaped backslash followed by `d`) the second backslash is taken for an unknown escape and doubled - \"C:\\\\data\" comes back with two backslashes, and \"a\\\\\" is rejected" % (K.src(n)[:50], pat_src))
+        else:
+            raise AnalysisError("C10.f: the string body is rewritten by a regular expression (%r) before it is decoded; whether it reads escapes the way the decoder does is not decided" % pat_src)
+    if not pre:
+        ctx.hold("C10.f", con, rel, rs.node.lineno, "the string body goes to the decoder as sliced", nontrivial=False)
     con = "%s::t_STRING::escape-codec" % rel
     dec = [n for n in ast.walk(rs.node) if isinstance(n, ast.Call) and isinstance(n.func, ast.Attribute) and n.func.attr == "decode" and n.args and isinstance(n.args[0], ast.Constant) and n.args[0].value == "unicode_escape"]
     if dec:
